@@ -534,6 +534,13 @@ func (t *tkRun) monitorSession(path string, f tkFacts, audience string, id tkIde
 		if b, ok := cl["email_verified"].(bool); ok && !b {
 			bad("session created although the token marks the e-mail unverified")
 		}
+		if v, present := cl["email_verified"]; present && v != nil {
+			if _, isB := v.(bool); !isB {
+				// a wrongly typed claim must not yield a session on this path (typed decoding): C14's fail-closed clause
+				t.c.violation("C14", "bearer session created from an extra issuer's token whose email_verified claim has the wrong JSON type", input)
+				bad("session created although email_verified is not a JSON boolean (wrong type must fail closed on the typed bearer path)")
+			}
+		}
 		want := tkIdentity{}
 		want.User, _ = cl["sub"].(string)
 		want.Email, _ = cl["email"].(string)
@@ -550,6 +557,10 @@ func (t *tkRun) monitorSession(path string, f tkFacts, audience string, id tkIde
 		if v, ok := resolve("email_verified"); ok {
 			if b, isB := v.(bool); isB && !b {
 				bad("session created although the standard e-mail claim is marked unverified")
+			}
+			// "false" in another encoding (some identity providers emit strings or numbers) still means unverified
+			if tkFalseLike(v) {
+				bad(fmt.Sprintf("session created although email_verified says false in a non-boolean encoding (%#v)", v))
 			}
 		}
 	}
@@ -657,3 +668,21 @@ var _ = context.Background
 var _ = base64.StdEncoding
 var _ = url.Parse
 var _ = middlewareapi.CreateTokenToSessionFunc
+
+// tkFalseLike: spellings of "false" that are not the JSON boolean
+func tkFalseLike(v interface{}) bool {
+	switch x := v.(type) {
+	case string:
+		switch x {
+		case "false", "False", "FALSE", "f", "F", "0":
+			return true
+		}
+	case float64:
+		return x == 0
+	case json.Number:
+		return x.String() == "0"
+	case int:
+		return x == 0
+	}
+	return false
+}
